@@ -550,9 +550,11 @@ class CircuitTemplate(AbstractBaseTemplate):
             columns = MultiIndex.from_tuples([c + ("",) * (n_lvls - len(c)) for c in columns])
         results = DataFrame(data=np.asarray(data).reshape(len(columns), -1).T, columns=columns, index=time_vec)
 
-        # store current state of the network
-        for key in net.compute_graph.state_vars:
-            self._state_var_values[key] = net.compute_graph.get_var(key).value
+        # store current state of the network (a run with `in_place=False` works on a copy and leaves this template,
+        # its remembered state included, as it was)
+        if in_place:
+            for key in net.compute_graph.state_vars:
+                self._state_var_values[key] = net.compute_graph.get_var(key).value
 
         # clean up
         if clear:
@@ -643,7 +645,7 @@ class CircuitTemplate(AbstractBaseTemplate):
         self._state_var_indices = state_var_indices
 
         # set current network state if it was empty before
-        if not self.state:
+        if in_place and not self.state:
             for key in net.compute_graph.state_vars:
                 self._state_var_values[key] = net.compute_graph.get_var(key).value
 
@@ -741,7 +743,7 @@ class CircuitTemplate(AbstractBaseTemplate):
         self._state_var_indices = state_var_indices
 
         # set current network state if it was empty before
-        if not self.state:
+        if in_place and not self.state:
             for key in net.compute_graph.state_vars:
                 self._state_var_values[key] = net.compute_graph.get_var(key).value
 
